@@ -177,25 +177,51 @@ Fixpoint take_while {A} (p : A -> bool) (l : list A) : list A :=
   | a :: l' => if p a then a :: take_while p l' else []
   end.
 
-(* every leaf of the token satisfies the sequencer's predicate (walk::forward(token)...all(is_unbounded)) *)
+(* the leaves of a token through nested concatenations only (walk::forward over a repetition body that holds no other branch) *)
+Fixpoint cat_leaves (t : tok) : option (list leaf) :=
+  match t with
+  | TLeaf _ l => Some [l]
+  | TCat _ ts =>
+      (fix go (l : list tok) : option (list leaf) :=
+         match l with
+         | [] => Some []
+         | x :: l' => match cat_leaves x, go l' with Some a, Some b => Some (a ++ b) | _, _ => None end
+         end) ts
+  | _ => None
+  end.
+
+(* TreeExhaustiveness::is_unbounded_repetition: no upper bound; only tokens that are unbounded in text (`?`, `*`, `$`: no
+   boundary, no literal, no class) and, except for at most one of them (`?`), in breadth *)
+Definition free_rep (b : tok) (hi : option N) : bool :=
+  match hi, cat_leaves b with
+  | None, Some ls =>
+      forallb (fun l => match l with LOne | LZom _ => true | _ => false end) ls &&
+      Nat.leb (length (filter (fun l => match l with LOne => true | _ => false end) ls)) 1
+  | _, _ => false
+  end.
+
+(* TreeExhaustiveness::is_unbounded_tree *)
 Fixpoint all_unbounded (t : tok) : bool :=
   match t with
   | TLeaf _ _ => exh_takes t
   | TAlt _ bs => forallb all_unbounded bs
   | TCat _ ts => forallb all_unbounded ts
-  | TRep _ b _ _ => all_unbounded b
+  | TRep _ b _ hi => free_rep b hi || all_unbounded b
   end.
 
-(* TreeExhaustiveness::enqueue on the reversed children (after the repair): leaves are taken while
-   they are unbounded; a branch is always taken, and in a conjunctive parent a branch with some
-   bounded leaf is the last token taken *)
+(* TreeExhaustiveness::is_bounded_branch *)
+Definition bounded_branch (t : tok) : bool := is_branch t && negb (all_unbounded t).
+
+(* TreeExhaustiveness::enqueue on the reversed children (after the repairs): leaves are taken while
+   they are unbounded; a branch is always taken, and in a conjunctive parent a bounded branch is the
+   last token taken *)
 Fixpoint take_exh {A} (conj : bool) (l : list (tok * A)) : list (tok * A) :=
   match l with
   | [] => []
   | (t, a) :: l' =>
       match t with
       | TLeaf _ _ => if exh_takes t then (t, a) :: take_exh conj l' else []
-      | _ => if conj && negb (all_unbounded t) then [(t, a)] else (t, a) :: take_exh conj l'
+      | _ => if conj && bounded_branch t then [(t, a)] else (t, a) :: take_exh conj l'
       end
   end.
 
@@ -239,7 +265,9 @@ Fixpoint exh_fold (t : tok) : res (option bterm) :=
         else if exh_maybe sum then sum else Some bterm_zero in
       match folded with
       | Some x =>
-          if exh_rep_finalizes x then do y <- bterm_product x (rep_range lo hi); Ok (Some y)
+          (* the bounds only multiply the depth of a body whose tokens are all unbounded in breadth and text (after the repair) *)
+          if bounded_branch b then Ok (Some x)
+          else if exh_rep_finalizes x then do y <- bterm_product x (rep_range lo hi); Ok (Some y)
           else Ok (Some x)
       | None => Ok None
       end
